@@ -150,7 +150,11 @@ def run_check(pid, tier="quick", seed=0, replay=None, jobs=None, verbose=False):
             rp = json.load(fh)
         cases = [rp["spec"]]
     else:
-        cases = list(mod.gen_cases(tier, seed))
+        try:
+            cases = list(mod.gen_cases(tier, seed))
+        except Exception as e:   # e.g. a reference run needed to plan the cases does not complete on this tree
+            print("INCONCLUSIVE property=%s reason=case-planning-failed %s" % (pid, repr(e)[:300]))
+            return 2
     for i, c in enumerate(cases):
         c.setdefault("case_id", i)
     njobs = jobs or int(os.environ.get("VERIF_JOBS", "16"))
